@@ -400,8 +400,10 @@ func main() {
 			color.NoColor = false
 			embMode = findEmbMode()
 		},
-		CaseTimeout: 120 * time.Second,
-		Run:         run,
+		CaseTimeout:      120 * time.Second,
+		QuickDeadline:    12 * time.Minute,
+		ThoroughDeadline: 60 * time.Minute,
+		Run:              run,
 	})
 }
 
